@@ -221,7 +221,7 @@ class _Chx(Chx):
 
 def obligations(tier):
     thorough = tier == "thorough"
-    to = 150 if tier == "quick" else 300  # CrossHair stops as soon as the path tree is exhausted (5-15 s unloaded); the slack is for a loaded machine
+    to = 150 if tier == "quick" else 1200  # CrossHair stops as soon as the path tree is exhausted (5-15 s unloaded); the slack is for a loaded machine
     cp = "every Unicode scalar value (1,112,064 code points, symbolic) followed by / preceded by one fixed ASCII character"
     obs = [
         Symx("text-roundtrip", lambda X: h_text(X, thorough),
@@ -231,13 +231,19 @@ def obligations(tier):
         Symx("second-assignment", h_second_assignment,
              bounds="6 content types x 7 charsets x prefixes x declared charsets x 4 code point classes: get_text() output assigned again",
              encoded=ENCODED[:2], must_reach=["fixpoint"]),
-        _Chx("codepoint-utf8", KERNEL, "check_utf8", twin="twin_utf8", timeout=to, bounds=cp + ", Content-Type text/plain; charset=utf-8 (U+FEFF first: signature reading)", encoded=ENCODED),
         _Chx("codepoint-latin1", KERNEL, "check_latin1", twin="twin_latin1", timeout=to, bounds="every code point U+0000..U+00FF (symbolic), Content-Type text/plain; charset=latin-1, header unchanged", encoded=ENCODED),
         _Chx("codepoint-no-content-type", KERNEL, "check_no_content_type", twin="twin_no_content_type", timeout=to, bounds="every code point U+0000..U+00FF (symbolic), no Content-Type header (latin-1 fallback)", encoded=ENCODED),
-        _Chx("codepoint-json", KERNEL, "check_json_one", twin="twin_json_one", timeout=to, bounds=cp + ", Content-Type application/json (utf-8 by definition)", encoded=ENCODED),
-        _Chx("codepoint-html", KERNEL, "check_html", twin="twin_html", timeout=to, bounds=cp + ", Content-Type text/html without charset (meta sniffing regex runs on the symbolic body)", encoded=ENCODED),
         Symx("escape-surrogates", h_escape_surrogates,
              bounds="every escape surrogate U+DC80..U+DCFF (all 128 undecodable bytes, solver-enumerated) x 5 header configurations x 4 positions; native execution",
              encoded=ENCODED[:2], must_reach=["end", "strict-raises"]),
     ]
+    if thorough:
+        # since the set_text fix sniffs the body like get_text (ascii-"replace" encode + regex on the symbolic text)
+        # these three kernels need minutes instead of seconds: thorough tier only; the quick tier covers the same
+        # content types through the class representatives of text-roundtrip
+        obs += [
+            _Chx("codepoint-utf8", KERNEL, "check_utf8", twin="twin_utf8", timeout=to, bounds=cp + ", Content-Type text/plain; charset=utf-8 (U+FEFF first: signature reading)", encoded=ENCODED),
+            _Chx("codepoint-json", KERNEL, "check_json_one", twin="twin_json_one", timeout=to, bounds=cp + ", Content-Type application/json (utf-8 by definition)", encoded=ENCODED),
+            _Chx("codepoint-html", KERNEL, "check_html", twin="twin_html", timeout=to, bounds=cp + ", Content-Type text/html without charset (meta sniffing regex runs on the symbolic body)", encoded=ENCODED),
+        ]
     return obs
